@@ -1,7 +1,7 @@
 \* generation: cases for the replay
 CONSTANTS
-    UseEntries = {3, 5, 8, 9, 12}
-    PrioAlphabet = {"./a/b", "../d", ".prefetch.landmark", "x"}
+    UseEntries = {3, 5, 8, 12, 16}
+    PrioAlphabet = {"./a/b", "../d", "x"}
     MaxTar = 3
     MaxPrio = 2
     WithLayout = FALSE
@@ -17,6 +17,7 @@ CONSTANTS
     DropInputLandmarks = TRUE
     LastDupWins = TRUE
     LandmarkOwnStream = TRUE
+    VisitingIsPath = TRUE
 INIT GenInit
 NEXT GenNext
 CHECK_DEADLOCK FALSE
